@@ -45,10 +45,13 @@ InternSolvable(pos, r) ==
   /\ pos \in DOMAIN names /\ Len(solvs) < MaxSolv
   /\ solvs' = Append(solvs, <<bulk + pos - 1, r>>) /\ ret' = bulk + Len(solvs)
   /\ UNCHANGED <<bulk, names, strs, vss, unions>>
-InternUnion(a, b) ==
-  /\ a \in DOMAIN vss /\ b \in DOMAIN vss /\ Len(unions) < MaxUnion
-  /\ unions' = Append(unions, <<bulk + a - 1, bulk + b - 1>>) /\ ret' = bulk + Len(unions)
+\* a union of one or more version sets given by their positions; never de-duplicated
+InternUnionSeq(ms) ==
+  /\ ms # <<>> /\ \A i \in DOMAIN ms : ms[i] \in DOMAIN vss
+  /\ Len(unions) < MaxUnion
+  /\ unions' = Append(unions, [i \in DOMAIN ms |-> bulk + ms[i] - 1]) /\ ret' = bulk + Len(unions)
   /\ UNCHANGED <<bulk, names, strs, vss, solvs>>
+InternUnion(a, b) == InternUnionSeq(<<a, b>>)
 
 Next == \/ \E n \in NameVals : InternName(n)
         \/ \E s \in StrVals : InternString(s)
